@@ -126,6 +126,9 @@ func normKeccakf(src string) string {
 		if t == "" || strings.HasPrefix(t, "//") {
 			continue
 		}
+		if k := strings.Index(t, "//"); k >= 0 {
+			t = strings.TrimSpace(t[:k])
+		}
 		out = append(out, wsRe.ReplaceAllString(t, ""))
 	}
 	return strings.Join(out, "\n")
